@@ -3,25 +3,19 @@
 package canonicalizer
 
 import (
-	"fmt"
-	"hash/fnv"
-
 	"github.com/nlnwa/whatwg-url/url"
 )
 
-// VerifProfileFingerprint hashes a profile created by New (its own flags and the options
-// of the parser it wraps) together with the package-level encode sets of this package.
-// Compiled only with the "verif" build tag.
+// VerifProfileFingerprint hashes a profile created by New: all of its fields, the parser it
+// wraps and everything they point to, together with the package-level encode sets of this
+// package. Compiled only with the "verif" build tag.
 func VerifProfileFingerprint(p url.Parser) (fp uint64, ok bool) {
 	pr, ok := p.(*profile)
 	if !ok {
 		return 0, false
 	}
 	inner, _ := url.VerifParserFingerprint(pr.Parser)
-	h := fnv.New64a()
-	fmt.Fprintf(h, "%d;%t;%t;%t;%d;%t;%q;", inner, pr.removeUserInfo, pr.removePort, pr.removeFragment,
-		int(pr.sortQuery), pr.repeatedPercentDecoding, pr.defaultScheme)
-	fmt.Fprintf(h, "%d;%d;%d;", url.VerifSetFingerprint(LaxPathPercentEncodeSet),
-		url.VerifSetFingerprint(LaxQueryPercentEncodeSet), url.VerifSetFingerprint(RepeatedQueryPercentDecodeSet))
-	return h.Sum64(), true
+	flags := *pr
+	flags.Parser = nil
+	return url.VerifDeepFingerprint([]interface{}{inner, flags, LaxPathPercentEncodeSet, LaxQueryPercentEncodeSet, RepeatedQueryPercentDecodeSet}), true
 }
